@@ -73,3 +73,110 @@ def dak_cg_reduced(z, tr, pr, variant=False):
     rho = 0.27 * pr / (z * tr)
     dz = dak_dz_drho(rho, tr, variant)
     return 1.0 / pr - 0.27 / (z**2 * tr) * (dz / (1 + rho * dz / z))
+
+
+# --------------------------------------------------------------------------------------------------
+# The documented boundary-value problem (docs/background.md):
+#   u_t = a(u) u_xx on 0 < x < 1,  u(0, t) = u_f,  u_x(1, t) = 0,  u(x, 0) = u_i,   a = alpha / alpha_i
+
+
+def fourier_field(x, t, n_terms=400):
+    """(u - u_f)/(u_i - u_f) for a = 1: sum_k 2/w_k sin(w_k x) exp(-w_k^2 t), w_k = (2k-1) pi/2."""
+    x = np.asarray(x, float)
+    k = np.arange(1, n_terms + 1)
+    w = (2 * k - 1) * np.pi / 2
+    return np.sum((2 / w)[:, None] * np.sin(w[:, None] * x[None, :]) * np.exp(-(w**2)[:, None] * t), axis=0)
+
+
+def fourier_recovery(t, n_terms=2000):
+    """Recovered fraction of the drawdown for a = 1: 1 - sum_k 2/w_k^2 exp(-w_k^2 t) (vectorised in t)."""
+    t = np.atleast_1d(np.asarray(t, float))
+    k = np.arange(1, n_terms + 1)
+    w2 = ((2 * k - 1) * np.pi / 2) ** 2
+    out = 1.0 - np.sum((2 / w2)[:, None] * np.exp(-w2[:, None] * t[None, :]), axis=0)
+    # for very small t the truncated series loses accuracy: use the half-space solution 2 sqrt(t/pi)
+    small = t < 1e-5
+    out[small] = 2 * np.sqrt(t[small] / np.pi)
+    return out
+
+
+class MolReference:
+    """Independent method-of-lines solution of the documented problem with pressure-dependent diffusivity.
+
+    Space: N cells, true Dirichlet node at x = 0, second-order reflecting closure at x = 1 (ghost u_{N+1} =
+    u_{N-1}); time: LSODA with a banded Jacobian, rtol 1e-9; diffusivity lookup: np.interp on the table's
+    (scaled pseudopressure, diffusivity) columns computed by the harness from the raw PVT columns.
+    """
+
+    def __init__(self, ms, alpha, u_f, u_i, n=600):
+        self.ms = np.asarray(ms, float)
+        self.al = np.asarray(alpha, float)
+        self.u_f, self.u_i, self.n = float(u_f), float(u_i), n
+        self.a_i = float(np.interp(u_i, self.ms, self.al))
+        self.x = np.linspace(0.0, 1.0, n + 1)  # node 0 is the Dirichlet node
+        self.h = 1.0 / n
+        self.sol = None
+
+    def a(self, u):
+        return np.interp(u, self.ms, self.al) / self.a_i
+
+    def _rhs(self, t, y):
+        u = np.concatenate([[self.u_f], y])
+        lap = np.empty(self.n)
+        lap[:-1] = u[:-2] - 2 * u[1:-1] + u[2:]
+        lap[-1] = 2 * (u[-2] - u[-1])
+        return self.a(y) * lap / self.h**2
+
+    def solve(self, t_end, t_eval=None):
+        from scipy.integrate import solve_ivp
+
+        y0 = np.full(self.n, self.u_i)
+        d = abs(self.u_i - self.u_f)
+        self.sol = solve_ivp(
+            self._rhs, (0.0, float(t_end)), y0, method="LSODA", rtol=1e-9, atol=1e-12 * max(d, 1e-300), lband=1, uband=1, dense_output=True
+        )
+        if not self.sol.success:
+            raise RuntimeError(f"reference integration failed: {self.sol.message}")
+        return self
+
+    def field(self, t):
+        """u on the reference nodes (including the Dirichlet node) at time t."""
+        return np.concatenate([[self.u_f], self.sol.sol(float(t))])
+
+    def field_at(self, x, t):
+        return np.interp(x, self.x, self.field(t))
+
+    def integral(self, func, t):
+        """integral over x of func(u(x, t)) by the trapezoid rule on the reference grid."""
+        v = func(self.field(t))
+        return float(np.sum(0.5 * (v[1:] + v[:-1])) * self.h)
+
+
+def implied_density(ms, alpha, u_f, u_i):
+    """R(u) = integral_{u_f}^{u} alpha_i / alpha du' on [u_f, u_i] (piecewise-linear alpha, integrated exactly).
+
+    In the continuum d/dt integral R(u) dx = -u_x(0, t), i.e. flux recovery = integral (R(u_i) - R(u)) dx."""
+    ms = np.asarray(ms, float)
+    al = np.asarray(alpha, float)
+    a_i = float(np.interp(u_i, ms, al))
+    inner = ms[(ms > u_f) & (ms < u_i)]
+    pts = np.concatenate([[u_f], inner, [u_i]])
+    av = np.interp(pts, ms, al)
+    seg = np.empty(len(pts) - 1)
+    for k in range(len(pts) - 1):
+        du, a0, a1 = pts[k + 1] - pts[k], av[k], av[k + 1]
+        seg[k] = a_i * du / a0 if abs(a1 - a0) < 1e-12 * abs(a0) else a_i * du * np.log(a1 / a0) / (a1 - a0)
+    cum = np.concatenate([[0.0], np.cumsum(seg)])
+
+    def R(u):
+        u = np.clip(np.asarray(u, float), u_f, u_i)
+        k = np.clip(np.searchsorted(pts, u, side="right") - 1, 0, len(pts) - 2)
+        a0, a1 = av[k], av[k + 1]
+        du = u - pts[k]
+        slope = (a1 - a0) / (pts[k + 1] - pts[k])
+        au = a0 + slope * du
+        with np.errstate(divide="ignore", invalid="ignore"):
+            part = np.where(np.abs(a1 - a0) < 1e-12 * np.abs(a0), a_i * du / a0, a_i * np.log(au / a0) / np.where(slope == 0, 1.0, slope))
+        return cum[k] + part
+
+    return R, float(cum[-1])
